@@ -81,21 +81,22 @@ type vfC04Peer struct {
 	mu          sync.Mutex
 	fires       []vfC04Fire
 
-	changeSeq      int // clear-cut changes so far
-	resolvedSeq    int // changes <= resolvedSeq are negotiated
-	createdSeq     int // changeSeq when the last offer/answer was created
-	appliedSeq     int // createdSeq of the local description last applied
-	unclassified   bool
-	unclSeq        int
-	dcPending      bool
-	lastChange     string
-	completions    []int64 // clock values just before each completing call
-	withdrawals    []int64 // clock values just before each successful RemoveTrack
-	lastAsAnswerer bool    // the most recent completion was as the answerer
-	remoteApplied  bool
-	parked         bool // queued work waits for a transport that needs the peer's next signalling step
-	nTracks, nAdds int
-	nDC            int
+	changeSeq       int // clear-cut changes so far
+	resolvedSeq     int // changes <= resolvedSeq are negotiated
+	createdSeq      int // changeSeq when the last offer/answer was created
+	appliedSeq      int // createdSeq of the local description last applied
+	unclassified    bool
+	unclSeq         int
+	dcPending       bool
+	lastChange      string
+	completions     []int64 // clock values just before each completing call
+	withdrawals     []int64 // clock values just before each successful RemoveTrack
+	lastAsAnswerer  bool    // the most recent completion was as the answerer
+	lastViaRemotePr bool    // ... as the offerer, having applied a remote provisional answer on the way
+	remoteApplied   bool
+	parked          bool // queued work waits for a transport that needs the peer's next signalling step
+	nTracks, nAdds  int
+	nDC             int
 }
 
 func (p *vfC04Peer) firesSince(at int64) int {
@@ -316,6 +317,7 @@ func vfC04Run(v *vfT, c vfC04Case) {
 				R.parked = true // startRTP may wait in startSCTP until the offerer starts its side
 				R.completions = append(R.completions, at)
 				R.lastAsAnswerer = true
+				R.lastViaRemotePr = false
 				if R.changeSeq > R.resolvedSeq {
 					// the answer may or may not have absorbed R's pending changes
 					R.unclassified, R.unclSeq = true, R.changeSeq
@@ -328,6 +330,7 @@ func vfC04Run(v *vfT, c vfC04Case) {
 				I.parked, R.parked = false, false
 				I.completions = append(I.completions, at)
 				I.lastAsAnswerer = false
+				I.lastViaRemotePr = prRemote
 				if I.appliedSeq > I.resolvedSeq {
 					I.resolvedSeq = I.appliedSeq
 				}
@@ -545,6 +548,23 @@ func vfC04Run(v *vfT, c vfC04Case) {
 			connected = true // both drains above waited for startTransports
 		}
 
+		v.Logf("C04 op %d %s x=%d a=%d | ex I=%d phase=%d pr=%v/%v | A: %s seq=%d/res=%d/app=%d uncl=%v fires=%d | B: %s seq=%d/res=%d/app=%d uncl=%v fires=%d | quiet=%v",
+			i, op.K, op.X, op.A, exI, exPhase, prLocal, prRemote,
+			ps[0].pc.SignalingState(), ps[0].changeSeq, ps[0].resolvedSeq, ps[0].appliedSeq, ps[0].unclassified, ps[0].firesSince(0),
+			ps[1].pc.SignalingState(), ps[1].changeSeq, ps[1].resolvedSeq, ps[1].appliedSeq, ps[1].unclassified, ps[1].firesSince(0), allQuiet)
+		if allQuiet {
+			for _, q := range ps {
+				if q.closeCalled.Load() {
+					continue
+				}
+				desc := ""
+				for _, t := range q.pc.GetTransceivers() {
+					snd := t.Sender()
+					desc += fmt.Sprintf(" [mid=%q dir=%s sender=%v track=%v]", t.Mid(), t.Direction(), snd != nil, snd != nil && snd.Track() != nil)
+				}
+				v.Logf("C04    %s: pionNeeded=%v flag=%v%s", q.name, q.pc.checkNegotiationNeeded(), q.pc.isNegotiationNeeded.Load(), desc)
+			}
+		}
 		// (A) and (B) on everything recorded so far
 		for _, q := range ps {
 			q.mu.Lock()
@@ -607,7 +627,11 @@ func vfC04Run(v *vfT, c vfC04Case) {
 				case q.unclassified:
 					v.Label("quiet-point:unclassified")
 				case needed && fired == 0:
-					v.Violation("C04/not-fired-when-stable/"+q.lastChange, "after op %d (%s %s): %s is stable, its queue is drained, %s (change #%d, last negotiated #%d) requires renegotiation, but negotiationneeded has not been invoked since its last completed exchange",
+					class := "C04/not-fired-when-stable/" + q.lastChange
+					if q.lastViaRemotePr {
+						class += "/offerer-applied-remote-pranswer"
+					}
+					v.Violation(class, "after op %d (%s %s): %s is stable, its queue is drained, %s (change #%d, last negotiated #%d) requires renegotiation, but negotiationneeded has not been invoked since its last completed exchange",
 						i, op.K, p.name, q.name, q.lastChange, q.changeSeq, q.resolvedSeq)
 				case needed:
 					v.Label("quiet-point:needed-and-fired")
